@@ -48,6 +48,7 @@ def _(c):
     c.ensures("len(result) == 4", name="four")
     c.ensures("all_k(0, 4, lambda k: result[k].n == pos.n + 1 and result[k].x == 2 * pos.x + k % 2 "
               "and result[k].y == 2 * pos.y + k // 2)", name="order_TL_TR_BL_BR")
+    c.ensures("all_k(0, 4, lambda k: is_child(result[k], pos))", name="children_marked")
 
 
 @contract("toasty.pyramid.is_subtile")
@@ -57,4 +58,46 @@ def _(c):
     c.returns("bool")
     c.raises("ValueError", when="deeper_pos.n < shallower_pos.n")
     c.decreases("deeper_pos.n - shallower_pos.n")
-    c.ensures("result == desc(deeper_pos, shallower_pos)", name="equals_desc")
+    c.ensures("result == desc_def(deeper_pos, shallower_pos)", name="equals_desc")
+
+
+# ---------------------------------------------------------------------------
+# generators of positions (C13)
+
+POSTFIX_SEQ = [
+    ("length", "len(Y) == ite(pos.n > depth, 0, T(depth - pos.n))"),
+    ("in_scope", "forall(lambda k: implies(0 <= k and k < len(Y), desc(Y[k], pos) and Y[k].n <= depth), trigger=lambda k: Y[k].n)"),
+    ("distinct", "forall(lambda i, j: implies(0 <= i and i < j and j < len(Y), Y[i] != Y[j]), trigger=lambda i, j: (Y[i].n, Y[j].n))"),
+    ("root_last", "implies(pos.n <= depth, len(Y) >= 1 and Y[len(Y) - 1] == pos)"),
+    # deepest-first: no item is followed by one of its strict descendants (with coverage this
+    # is "all four children of a position are yielded before the position itself")
+    ("descendants_first", "forall(lambda i, j: implies(0 <= i and i < j and j < len(Y), "
+                          "not (desc(Y[j], Y[i]) and Y[j] != Y[i])), trigger=lambda i, j: (Y[i].n, Y[j].n))"),
+]
+
+
+@contract("toasty.pyramid._postfix_pos")
+def _(c):
+    c.args(pos="Pos", depth="int")
+    c.requires("pos.n >= 0 and pos.x >= 0 and pos.y >= 0", name="nonnegative_position")
+    c.yields("Pos")
+    c.decreases("ite(depth + 1 - pos.n > 0, depth + 1 - pos.n, 0)")
+    uses = {"length": ["length", "four", "order_TL_TR_BL_BR"], "in_scope": ["in_scope", "four", "order_TL_TR_BL_BR", "children_marked"],
+            "distinct": ["in_scope", "distinct", "four", "order_TL_TR_BL_BR", "children_marked"],
+            "root_last": ["root_last", "length", "four", "order_TL_TR_BL_BR"],
+            "descendants_first": ["in_scope", "descendants_first", "four", "order_TL_TR_BL_BR", "children_marked"]}
+    for name, expr in POSTFIX_SEQ:
+        c.yields_seq(expr, name=name, uses=uses[name])
+
+
+@contract("toasty.pyramid.generate_pos")
+def _(c):
+    c.args(depth="int")
+    c.requires("depth >= 0")
+    c.yields("Pos")
+    c.yields_seq("len(Y) == T(depth)", name="length_closed_form")
+    c.yields_seq("forall(lambda k: implies(0 <= k and k < len(Y), valid_pos(Y[k]) and Y[k].n <= depth), trigger=lambda k: Y[k].n)", name="in_scope")
+    c.yields_seq("forall(lambda i, j: implies(0 <= i and i < j and j < len(Y), Y[i] != Y[j]), trigger=lambda i, j: (Y[i].n, Y[j].n))", name="distinct")
+    c.yields_seq("Y[len(Y) - 1] == Pos(0, 0, 0)", name="root_last")
+    c.yields_seq("forall(lambda i, j: implies(0 <= i and i < j and j < len(Y), "
+                 "not (desc(Y[j], Y[i]) and Y[j] != Y[i])), trigger=lambda i, j: (Y[i].n, Y[j].n))", name="descendants_first")
